@@ -11,6 +11,9 @@ CONSTANTS
   Sym = FALSE
   NCallers = 3
   Removal = "skip"
+  MaxTwice = 1
+  SetRace = "locked"
+  Pick = 3
   Emit = "terminal"
 INVARIANTS TypeOK Gone R0ok R1ok R2ok R3ok R4ok R6ok
 CHECK_DEADLOCK FALSE
